@@ -350,6 +350,9 @@ func auxValue(kind int, v int64) interface{} {
 	case 2:
 		return uint64(v + 3)
 	case 3:
+		if v == 0 {
+			return "" // an empty string is a value, not a nil marker
+		}
 		return fmt.Sprintf("s%d", v)
 	case 4:
 		return v%2 == 0
